@@ -614,6 +614,94 @@ func identityCorpus() []string {
 	return out
 }
 
+// typedCorpus: contents with the inner structure the element's type has in TS 24.501, for the element kinds whose
+// contents a decoder or a caller may well interpret — tracking area identity lists (9.11.3.9: partial lists of the three
+// types, counts 1..32, first TACs at both ends of the 24-bit space, one and two partial lists), service area lists, QoS
+// flow descriptions (9.11.4.12: create / modify with two bit-rate parameters of every kind pair, units and values in
+// both orders of magnitude) and QoS rules.
+var typedCorpusCache = map[string][]string{}
+
+func typedCorpus(slot string) []string {
+	kind := ""
+	switch {
+	case strings.Contains(slot, "TAIList") || strings.Contains(slot, "ServiceAreaList"):
+		kind = "area"
+	case strings.Contains(slot, "FlowDescriptions"):
+		kind = "descs"
+	case strings.Contains(slot, "QosRules") || strings.Contains(slot, "QoSRules"):
+		kind = "rules"
+	default:
+		return nil
+	}
+	if c, ok := typedCorpusCache[kind]; ok {
+		return c
+	}
+	var out []string
+	add := func(b []byte) { out = append(out, string(b)) }
+	switch kind {
+	case "area":
+		plmn := []byte{0x02, 0xF8, 0x39}
+		var lists [][]byte
+		for typ := 0; typ < 4; typ++ {
+			for _, cnt := range []int{1, 2, 8, 16, 17, 32} {
+				for _, tac := range []uint32{0x000000, 0x000001, 0x7FFFFF, 0xFFFFF0, 0xFFFFFE, 0xFFFFFF} {
+					l := []byte{byte(typ<<5 | (cnt-1)&0x1F)}
+					t3 := func(v uint32) []byte { return []byte{byte(v >> 16), byte(v >> 8), byte(v)} }
+					switch typ {
+					case 0:
+						l = append(l, plmn...)
+						for k := 0; k < cnt; k++ {
+							l = append(l, t3((tac+uint32(k))&0xFFFFFF)...)
+						}
+					case 1, 3:
+						l = append(append(l, plmn...), t3(tac)...)
+					case 2:
+						for k := 0; k < cnt; k++ {
+							l = append(append(l, plmn...), t3((tac+uint32(k))&0xFFFFFF)...)
+						}
+					}
+					lists = append(lists, l)
+					add(l)
+				}
+			}
+		}
+		for i := 0; i+7 < len(lists); i += 7 {
+			add(append(append([]byte{}, lists[i]...), lists[i+5]...))
+		}
+	case "descs":
+		for _, op := range []uint8{1, 3} {
+			for a := byte(2); a <= 5; a++ {
+				for b := byte(2); b <= 5; b++ {
+					for _, ua := range []byte{1, 2, 6, 11} {
+						for _, ub := range []byte{1, 2, 6, 11} {
+							for _, va := range []uint16{1, 2000, 65535} {
+								for _, vb := range []uint16{1, 2000, 65535} {
+									add(refDescs([]qDesc{{QFI: 5, Op: op, Params: []qParam{
+										{ID: a, Value: fmt.Sprintf("%02x%04x", ua, va)}, {ID: b, Value: fmt.Sprintf("%02x%04x", ub, vb)}}}}))
+								}
+							}
+						}
+					}
+				}
+			}
+		}
+	case "rules":
+		for op := uint8(1); op <= 6; op++ {
+			for _, nf := range []int{0, 1, 2, 15} {
+				var fs []qFilter
+				for k := 0; k < nf; k++ {
+					fs = append(fs, qFilter{ID: uint8(k), Dir: uint8(1 + k%3), Comps: []qComp{{Type: 0x10, Value: "c0000221ffffff00"}, {Type: 0x50, Value: "1f90"}}})
+				}
+				for _, prec := range []uint8{0, 255} {
+					add(refRules([]qRule{{ID: 1, Op: op, DQR: op == 1, Filters: fs, Precedence: prec, QFI: 9}}))
+				}
+			}
+		}
+	}
+	typedCorpusCache[kind] = out
+	return out
+}
+
 // ieiConfusion: contents of a length-prefixed element that look like the elements that may follow it. For every
 // length that is also an information element identifier of the message (a length octet that a layout autodetection can
 // take for an identifier) and for the minimum and maximum, the element that follows in table order (the next three) is
@@ -680,6 +768,9 @@ func (x *codecExplorer) contentFamily(m *bind.Msg) {
 		}
 		if isIdentitySlot(s.Name) {
 			all = append(append([]string{}, all...), identityCorpus()...)
+		}
+		if tc := typedCorpus(s.Name); len(tc) > 0 {
+			all = append(append([]string{}, all...), tc...)
 		}
 		for ci, raw := range all {
 			if ci%32 == 0 {
